@@ -62,7 +62,13 @@ func (kv *LeveldbKV) LoadRange(startKey, endKey string, limit int) ([]string, []
 		values = append(values, string(iter.Value()))
 		count++
 	}
+	// The iterator stops on a read error as well (closed db, corrupted block): report it,
+	// a short page must not be mistaken for the end of the data.
+	err := iter.Error()
 	iter.Release()
+	if err != nil {
+		return nil, nil, errors.WithStack(err)
+	}
 	return keys, values, nil
 }
 
